@@ -1010,6 +1010,14 @@ func runTopology(c *mon.Case, i int) {
 		mixKeys[k], _ = newKey(r, kind, rsaUsed)
 		mixKinds += kind.String() + " "
 	}
+	// every third topology carries one structured key (short public coordinate or scalar,
+	// structkeys.go) in the SM2 and in the ECDSA key table
+	if i%3 == 0 {
+		slot, cl := (i/3)%t.nkeys, structClass((i/3)%int(nStructClasses))
+		sm2Keys[slot], ecKeys[slot] = structKey(kSM2, cl), structKey(kP256, cl)
+		c.Detail("structured key", fmt.Sprintf("slot %d class %v", slot, cl))
+		c.Event("topologies_with_structured_key", 1)
+	}
 	c.Detail("mixed-instance key kinds", mixKinds)
 
 	var insts []*instance
